@@ -188,5 +188,125 @@ func Remove(name string) error {
 	return nil
 }
 
+// Flags mirroring package os.
+const (
+	O_RDONLY = 0x0
+	O_WRONLY = 0x1
+	O_RDWR   = 0x2
+	O_APPEND = 0x400
+	O_CREATE = 0x40
+	O_EXCL   = 0x80
+	O_SYNC   = 0x101000
+	O_TRUNC  = 0x200
+)
+
+// File mirrors the part of *os.File used for writing files.
+type File struct {
+	name   string
+	pos    int
+	append bool
+	closed bool
+}
+
+// OpenFile mirrors os.OpenFile for writing (and creating) files.
+func OpenFile(name string, flag int, perm FileMode) (*File, error) {
+	mu.Lock()
+	kind := "open"
+	if flag&O_TRUNC != 0 {
+		kind = "open-trunc"
+	}
+	if step(Step{Kind: kind, Name: name}) {
+		mu.Unlock()
+		panic(Crash{len(log) - 1})
+	}
+	defer mu.Unlock()
+	_, exists := files[name]
+	switch {
+	case !exists && flag&O_CREATE == 0:
+		return nil, &fs.PathError{Op: "open", Path: name, Err: fs.ErrNotExist}
+	case exists && flag&O_CREATE != 0 && flag&O_EXCL != 0:
+		return nil, &fs.PathError{Op: "open", Path: name, Err: fs.ErrExist}
+	case !exists:
+		files[name] = []byte{}
+	}
+	if flag&O_TRUNC != 0 {
+		files[name] = []byte{}
+	}
+	return &File{name: name, append: flag&O_APPEND != 0}, nil
+}
+
+// Create mirrors os.Create.
+func Create(name string) (*File, error) { return OpenFile(name, O_RDWR|O_CREATE|O_TRUNC, 0o666) }
+
+// Name mirrors (*os.File).Name.
+func (f *File) Name() string { return f.name }
+
+// Write mirrors (*os.File).Write: bytes are written at the file position; a
+// crash in the middle persists an arbitrary prefix of this write.
+func (f *File) Write(p []byte) (int, error) {
+	mu.Lock()
+	if f.closed {
+		mu.Unlock()
+		return 0, fs.ErrClosed
+	}
+	apply := func(n int) {
+		cur := files[f.name]
+		pos := f.pos
+		if f.append {
+			pos = len(cur)
+		}
+		for len(cur) < pos+n {
+			cur = append(cur, 0)
+		}
+		copy(cur[pos:], p[:n])
+		files[f.name] = cur
+		f.pos = pos + n
+	}
+	if step(Step{Kind: "write", Name: f.name, Size: len(p)}) {
+		off := crashOff
+		if off > len(p) {
+			off = len(p)
+		}
+		apply(off)
+		mu.Unlock()
+		panic(Crash{len(log) - 1})
+	}
+	apply(len(p))
+	mu.Unlock()
+	return len(p), nil
+}
+
+// WriteString mirrors (*os.File).WriteString.
+func (f *File) WriteString(s string) (int, error) { return f.Write([]byte(s)) }
+
+// Sync mirrors (*os.File).Sync (a no-op in the process-kill model, but a step).
+func (f *File) Sync() error {
+	mu.Lock()
+	if step(Step{Kind: "sync", Name: f.name}) {
+		mu.Unlock()
+		panic(Crash{len(log) - 1})
+	}
+	mu.Unlock()
+	return nil
+}
+
+// Close mirrors (*os.File).Close.
+func (f *File) Close() error {
+	mu.Lock()
+	if step(Step{Kind: "close", Name: f.name}) {
+		mu.Unlock()
+		panic(Crash{len(log) - 1})
+	}
+	f.closed = true
+	mu.Unlock()
+	return nil
+}
+
+// MkdirAll mirrors os.MkdirAll (directories are implicit).
+func MkdirAll(path string, perm FileMode) error { return nil }
+
+// Chmod mirrors os.Chmod (no-op).
+func Chmod(name string, mode FileMode) error { return nil }
+
 // IsNotExist mirrors os.IsNotExist.
 func IsNotExist(err error) bool { return errors.Is(err, fs.ErrNotExist) }
